@@ -135,6 +135,23 @@ def conclude(ctx, prop, results, wall):
             undecided.append({"unit": f["unit"], "undecided_reason": "counterexample for %s did not reproduce on the real code" % f["obligation"]})
             continue
         violations.append((f, rp, found_input))
+    # witness-only findings: genuine defects shown by a concrete input on the real code that no obligation decides (e.g.
+    # floating-point rounding, which the contracts treat as mathematical): the witness is re-run on every run; they
+    # never count as obligations and never suppress a violation
+    witness_only = []
+    if True:
+        for k in ctx.known.get("findings", []):
+            if k["property"] == pid and k.get("kind") == "witness-only":
+                try:
+                    still = run_witness(ctx, k)
+                except Exception as e:
+                    undecided.append({"unit": "known-findings", "undecided_reason": "witness replay failed to run: %s" % e})
+                    continue
+                if still:
+                    witness_only.append(k["obligation"])
+                    lines.append("KNOWN-FINDING: property=%s %s" % (pid, k["what"]))
+                else:
+                    stale.append(k["obligation"])
     # residual: each known finding must still be the *only* failure of its obligation — handled by residual obligations in units
     trusted, functions, samples, cmds, bounded = [], [], [], [], []
     for r in results:
@@ -160,6 +177,7 @@ def conclude(ctx, prop, results, wall):
             "functions_under_contract": functions,
             "bounded": bounded,
             "known_findings_hit": [k["obligation"] for k in known_hit],
+            "witness_only_findings_hit": witness_only,
             "stale_known_findings": stale,
             "failed_obligations": [f["obligation"] for f in failures],
             "undecided": [u.get("undecided_reason") for u in undecided],
